@@ -132,8 +132,8 @@ def entries_for(rng, quick):
 CLOSURES = [
     ("closure-over-expect-cast", "fn mk_{k}(d: Data) -> fn(Int) -> Int {\n  expect v: Int = d\n  fn(z) { v + z }\n}\n\npub fn entry_{k}(d: Data, b: Bool) -> Data {\n  let g = mk_{k}(d)\n  let result: Data =\n    if b {\n      g(1)\n    } else {\n      0\n    }\n  result\n}\n", [D, BOOL]),
     ("closure-over-division", "fn mk_{k}(a: Int) -> fn(Int) -> Int {\n  let x = 10 / a\n  fn(z) { x + z }\n}\n\npub fn entry_{k}(a: Int, b: Bool) -> Data {\n  let g = mk_{k}(a)\n  let result: Data =\n    if b {\n      g(1)\n    } else {\n      0\n    }\n  result\n}\n", [I, BOOL]),
-    ("closure-over-head-list", "fn mk_{k}(xs: List<Data>) -> fn(Int) -> Data {\n  let h = builtin.head_list(xs)\n  fn(z) { if z > 0 { h } else { builtin.i_data(z) } }\n}\n\npub fn entry_{k}(xs: List<Data>, b: Bool) -> Data {\n  let g = mk_{k}(xs)\n  let result: Data =\n    if b {\n      g(1)\n    } else {\n      0\n    }\n  result\n}\n", [LD, BOOL]),
-    ("closure-in-list-never-called", "fn mk_{k}(a: Int) -> fn(Int) -> Int {\n  let x = 10 / a\n  fn(z) { x * z }\n}\n\npub fn entry_{k}(a: Int, b: Bool) -> Data {\n  let fs = [mk_{k}(a), mk_{k}(a + 1)]\n  let result: Data =\n    when fs is {\n      [f, ..] if b -> f(2)\n      _ -> 0\n    }\n  result\n}\n", [I, BOOL]),
+    ("closure-over-head-list", "fn mk_{k}(xs: List<Data>) -> fn(Int) -> Data {\n  let h = builtin.head_list(xs)\n  fn(z) { if z > 0 { h } else { builtin.i_data(z) } }\n}\n\npub fn entry_{k}(xs: List<Data>, b: Bool) -> Data {\n  let g = mk_{k}(xs)\n  let result: Data =\n    if b {\n      g(1)\n    } else {\n      builtin.i_data(0)\n    }\n  result\n}\n", [LD, BOOL]),
+    ("closure-in-list-never-called", "fn mk_{k}(a: Int) -> fn(Int) -> Int {\n  let x = 10 / a\n  fn(z) { x * z }\n}\n\npub fn entry_{k}(a: Int, b: Bool) -> Data {\n  let f = mk_{k}(a)\n  let g = mk_{k}(a + 1)\n  let result: Data =\n    if b {\n      f(2) + g(3)\n    } else {\n      0\n    }\n  result\n}\n", [I, BOOL]),
     ("closure-two-levels", "fn mk_{k}(a: Int) -> fn(Int) -> fn(Int) -> Int {\n  let x = 10 / a\n  fn(y) {\n    let w = 10 / y\n    fn(z) { x + w + z }\n  }\n}\n\npub fn entry_{k}(a: Int, b: Bool) -> Data {\n  let g = mk_{k}(a)\n  let h = g(a - 1)\n  let result: Data =\n    if b {\n      h(1)\n    } else {\n      0\n    }\n  result\n}\n", [I, BOOL]),
 ]
 
